@@ -429,8 +429,18 @@ def obs(d):
 # ---------------------------------------------------------------------------------------------
 # generators: the valid stream
 # ---------------------------------------------------------------------------------------------
+def gen_fmt(rng):
+    """a format string of the SECoP family %.<n>(e|f|g): the catalogue (frappy's default %g three times), or any precision
+    0..17 with any of the three conversions (few digits round a limit value up beyond the float range, many digits show
+    the binary noise, %.<n>f prints small negative values as -0.00)"""
+    r = rng.random()
+    if r < 0.4:
+        return rng.choice(FMTS)
+    return '%%.%d%s' % (rng.choice([0, 1, 2, 3, 4, 5, 6, 7, 8, 9, 10, 11, 12, 15, 16, 17]), rng.choice('efg'))
+
+
 def gen_fmts(rng, tree):
-    return {pos_key(pos): rng.choice(FMTS) for pos, leaf in leaf_paths(tree) if leaf['t'] in ('double', 'scaled')}
+    return {pos_key(pos): gen_fmt(rng) for pos, leaf in leaf_paths(tree) if leaf['t'] in ('double', 'scaled')}
 
 
 def shuffled_structs(rng, tree, v):
@@ -683,7 +693,9 @@ def run(ctx):
             res.count('tree.contains=' + k)
         fmts = gen_fmts(rng, tree)
         for f in fmts.values():
-            res.count('fmtstr=' + f)
+            res.count('fmtstr=' + (f if f == '%g' else '%.<n>' + f[-1]))
+            res.count('fmtstr.digits=' + ('default' if f == '%g' else '0-2' if int(f[2:-1]) <= 2 else '3-9' if int(f[2:-1]) <= 9
+                                          else '10-17'))
         for v in gen_values(rng, tree, per_tree):
             if not dtcodec.encodable(v):
                 continue
